@@ -2,7 +2,7 @@
    For each reformulation: an lp_equiv (maps between feasible sets + sign-aware affine map on
    values); from an lp_equiv: optimum <-> optimum with related values, infeasible <-> infeasible,
    unbounded <-> unbounded; lp_equiv is closed under composition. *)
-From QSX Require Import LP.TransformSound.
+From QSX Require Import LP.TransformSound LP.TransformBounds.
 Local Open Scope Q_scope.
 
 Theorem C15_equiv_optimum : forall M U U' phi psi neg b, lp_equiv M U U' phi psi neg b ->
@@ -72,3 +72,9 @@ Theorem C15_column_permutation : forall M p U U', perm_cols p U = Some U' ->
   lp_equiv M U U' (pc_phi p) (pc_psi p) false 0.
 Proof. exact perm_cols_equiv. Qed.
 Print Assumptions C15_column_permutation.
+
+(* a finite bound of a column written as an explicit row (the column's bound becomes infinite) *)
+Theorem C15_bound_as_row : forall M upper j U U', bound_to_row M upper j U = Some U' ->
+  lp_equiv M U U' (fun x => x) (fun x => x) false 0.
+Proof. exact bound_to_row_equiv. Qed.
+Print Assumptions C15_bound_as_row.
